@@ -172,6 +172,8 @@ pub enum Entity {
     Named,
     Decimal,
     Hex,
+    /// only what XML forces: & and < everywhere, additionally > and the active quote inside attribute values
+    Minimal,
 }
 #[derive(Clone, Copy, Debug)]
 pub struct PrintOpts {
@@ -190,6 +192,11 @@ impl Default for PrintOpts {
 }
 
 pub fn escape(s: &str, ent: Entity, out: &mut String) {
+    escape_ctx(s, ent, None, out)
+}
+
+/// `quote`: Some(q) inside an attribute value delimited by q
+pub fn escape_ctx(s: &str, ent: Entity, quote: Option<char>, out: &mut String) {
     for c in s.chars() {
         let named = match c {
             '<' => Some("&lt;"),
@@ -207,6 +214,14 @@ pub fn escape(s: &str, ent: Entity, out: &mut String) {
             }
             (Some(_), Entity::Hex) => {
                 let _ = write!(out, "&#x{:X};", c as u32);
+            }
+            (Some(n), Entity::Minimal) => {
+                let forced = c == '&' || c == '<' || (quote.is_some() && (c == '>' || Some(c) == quote));
+                if forced {
+                    out.push_str(n)
+                } else {
+                    out.push(c)
+                }
             }
         }
     }
@@ -279,7 +294,7 @@ pub fn print_node(n: &Node, root_version: Option<AutosarVersion>, indent: usize,
             out.push_str(a);
             out.push('=');
             out.push(q);
-            escape(&v.text(), o.entity, out);
+            escape_ctx(&v.text(), o.entity, Some(q), out);
             out.push(q);
         }
     }
